@@ -189,9 +189,13 @@ type FnVC struct {
 	faOrder  []string
 	keyTerms map[string][]string // key sort -> terms used as map keys (for model projection)
 	nSmoke   int
+	pendingVars map[string]Val // extra bindings for the next applyContract (captured variables, field holder)
 }
 
-type privCell struct{ ref, comp string }
+type privCell struct {
+	ref, comp string
+	caps      []ssa.Instruction // non-nil: private only until one of these closure creations has run
+}
 
 type faInfo struct {
 	sort string
@@ -603,9 +607,44 @@ func (vc *FnVC) havocAll(st *State, keep ...string) {
 	// local variable cells that only this function writes keep their content
 	for i, pc := range vc.privCells {
 		if ov, ok := privOld[i]; ok {
-			vc.assume(eq(sel(vc.cur(st, pc.comp), pc.ref), ov))
+			keep := eq(sel(vc.cur(st, pc.comp), pc.ref), ov)
+			if pc.caps != nil {
+				keep = implies(not(vc.capturedSoFar(pc.caps)), keep)
+			}
+			vc.assume(keep)
 		}
 	}
+}
+
+// capturedSoFar: a condition that holds on every path to the current instruction on which one of
+// the given closure creations has already run.
+func (vc *FnVC) capturedSoFar(caps []ssa.Instruction) string {
+	var ds []string
+	for _, c := range caps {
+		b := c.Block()
+		if b == vc.curBlock {
+			before := false
+			for _, ins := range b.Instrs {
+				if ins == c {
+					before = true
+					break
+				}
+				if ins == vc.curInstr {
+					break
+				}
+			}
+			if before {
+				return "true"
+			}
+			continue
+		}
+		r, ok := vc.reach[b]
+		if !ok {
+			continue // not processed yet: later in every execution order
+		}
+		ds = append(ds, r)
+	}
+	return or(ds...)
 }
 
 // typeTok names a Go type for use in component names. Two types that Go lets alias behind a
